@@ -19,6 +19,7 @@ def run(rep, tier, seed):
     cases = loadcheck.explore(rep, "MC_C05", 1, items="Decls", label="MC_C05 every declaration (scalars, arrays of every row structure/parameter pattern/shape)")
     n = 2 if tier == "quick" else 3
     cases += loadcheck.explore(rep, "MC_C05", n, items="ReadMenu", label="MC_C05 rectangular arrays x readers A[k], N=%d" % n)
+    cases += loadcheck.explore(rep, "MC_C05", 4, items="Redecl", label="MC_C05 an indexed array declared again with other contents/shape, reads before and after (4 items)")
     loadcheck.replay_cases(rep, cases, seed, sections=("ops", "vars", "params"), fingerprint=fingerprint, strict_cls=False)
     rep.cov["ragged_cases"] = sum(1 for c in cases if any(is_ragged(it) for it in c["s"]["body"]))
     rep.cov["param_element_cases"] = sum(1 for c in cases if any(has_bare_param(it) for it in c["s"]["body"]))
